@@ -87,4 +87,24 @@ theorem isURL_doubleSlash {s : Str} (h : isURL s = true) : noDoubleSlash s = fal
       subst h5; subst h6
       simp [noDoubleSlash]
 
+
+theorem physical_append (links : List (List Str × List Str)) (R rest : List Str) :
+    physical links (R ++ rest) = rest.foldl (physStep links) (physical links R) := by
+  simp [physical, List.foldl_append]
+
+theorem foldl_physStep_nolink (links : List (List Str × List Str)) (rest acc : List Str)
+    (h : ∀ k, 0 < k → k ≤ rest.length → lookupLink links (acc ++ rest.take k) = none) :
+    rest.foldl (physStep links) acc = acc ++ rest := by
+  induction rest generalizing acc with
+  | nil => simp
+  | cons c t ih =>
+    have h1 := h 1 (by omega) (by simp)
+    simp only [List.take_succ_cons, List.take_zero] at h1
+    simp only [List.foldl_cons, physStep, h1]
+    rw [ih (acc ++ [c])]
+    · simp
+    · intro k hk hkl
+      have := h (k + 1) (by omega) (by simp; omega)
+      simpa using this
+
 end C41
